@@ -86,6 +86,9 @@ TOKENRE: Final[Pattern[str]] = re.compile(f"[0-9A-Za-z{_TCHAR_SPECIALS}]+")
 _FIELD_VALUE_FORBIDDEN_CTL_RE: Final[Pattern[str]] = re.compile(
     r"[\x00-\x08\x0a-\x1f\x7f]"
 )
+# https://www.rfc-editor.org/rfc/rfc9112.html#section-3.2
+# request-target never contains CTLs, SP or DEL.
+_TARGET_FORBIDDEN_RE: Final[Pattern[str]] = re.compile(r"[\x00-\x20\x7f]")
 VERSRE: Final[Pattern[str]] = re.compile(r"HTTP/(\d)\.(\d)", re.ASCII)
 DIGITS: Final[Pattern[str]] = re.compile(r"\d+", re.ASCII)
 HEXDIGITS: Final[Pattern[bytes]] = re.compile(rb"[0-9a-fA-F]+")
@@ -670,6 +673,11 @@ class HttpRequestParser(HttpParser[RawRequestMessage]):
         if match is None:
             raise BadStatusLine(line)
         version_o = HttpVersion(int(match.group(1)), int(match.group(2)))
+
+        if _TARGET_FORBIDDEN_RE.search(path):
+            raise InvalidURLError(
+                path.encode(errors="surrogateescape").decode("latin1")
+            )
 
         if method == "CONNECT":
             # authority-form,
